@@ -233,13 +233,14 @@ def res_cmd(rng):
 STR_NAMES = ["A", "B", "Mel", "A01", "X_1", "Bass", "#M", "ZZ"]
 
 
-def part_text(rng, depth=1):
-    """the text of a PLAY part / a string variable: balanced braces only"""
+def part_text(rng, depth=1, names=True):
+    """the text of a PLAY part / a string variable: balanced braces only; the text of a string variable never uses a
+    variable (a variable that uses itself is unbounded recursion: the process aborts, which C07 excludes)"""
     n = rng.randrange(1, 6)
     t = block(rng, depth, n, {"sub": True, "tuplet": True, "comments": False})
     if rng.random() < 0.15:
         t = track_cmd(rng) + " " + t
-    if rng.random() < 0.1:
+    if names and rng.random() < 0.1:
         t += " " + rng.choice(STR_NAMES)
     return t.replace("//", "/ /")
 
@@ -265,7 +266,7 @@ def str_def(rng):
     name = rng.choice(STR_NAMES + ["", "TR", "Tempo", "c"])
     k = rng.random()
     if k < 0.8:
-        val = "{" + part_text(rng) + "}"
+        val = "{" + part_text(rng, names=False) + "}"
     elif k < 0.9:
         val = rng.choice(["5", "-1", "!4", ""])
     else:
